@@ -262,6 +262,18 @@ Theorem C12_emip3_rejects_modified : forall P : prims, law_aead_authentic P ->
 Proof. intros P LA tp tc pw c. exact (emip3_rejects_non_images P true tp tc pw c LA). Qed.
 Print Assumptions C12_emip3_rejects_modified.
 
+(* LIMITATION made explicit: the password enters only through the derived key.  Two different passwords that derive the same key
+   under the carried salt are indistinguishable to decryption; PBKDF2-HMAC-SHA512 has such pairs by construction (HMAC zero-pads the
+   key: P and P ++ [0]; a password longer than 128 bytes and its SHA-512 digest).  For them the premise of C12_emip3_rejects_modified
+   is false and "an error under any other password" does not hold — a property of the external KDF, observed on the real code
+   (sequence pattern related-passwords: the model, whose kdf is the table of real PBKDF2 calls, predicts the acceptance). *)
+Theorem C12_emip3_password_only_through_key : forall (P : prims) tp tp' tc pw pw' c,
+  unhex tp = Some pw -> unhex tp' = Some pw' -> unhex tc = Some c ->
+  kdf P pw (firstn 32 c) = kdf P pw' (firstn 32 c) ->
+  decrypt_with_password P tp tc = decrypt_with_password P tp' tc.
+Proof. intros P tp tp' tc pw pw' c. exact (emip3_depends_on_key_only P true tp tp' tc pw pw' c). Qed.
+Print Assumptions C12_emip3_password_only_through_key.
+
 (* a modified TAG needs no cryptographic premise at all *)
 Theorem C12_emip3_rejects_modified_tag : forall P : prims,
   law_aead_roundtrip P -> law_aead_shapes P -> law_aead_authentic P -> law_aead_plain_by_ct P ->
@@ -285,7 +297,7 @@ Theorem C12_model_satisfies_judge : forall P : prims,
   forall c, case_wf c ->
   has_panic (model_obs Q c) = false /\ stmt Q c (model_obs Q c) = true /\
   judge Q c (model_obs Q c) =
-    (if stmt_tested c (model_obs Q c) then Holds
+    (if stmt_tested Q c (model_obs Q c) then Holds
      else if known_class Q c =? 0 then FailsUnknown else FailsKnown (known_class Q c)).
 Proof.
   intros P L Q c H. pose proof (all_laws_concrete P L) as LQ.
@@ -302,7 +314,7 @@ Theorem C12_sequences_stepwise : forall P : prims,
   let Q := with_bech32 P in
   forall l, Forall case_wf l ->
   model_seq Q l = map (model_obs Q) l /\
-  (forallb (fun c => stmt_tested c (model_obs Q c)) l = true -> judge_seq Q l (model_seq Q l) = Holds).
+  (forallb (fun c => stmt_tested Q c (model_obs Q c)) l = true -> judge_seq Q l (model_seq Q l) = Holds).
 Proof. intros P L Q l H. exact (conj eq_refl (judge_seq_on_model Q (all_laws_concrete P L) l H)). Qed.
 Print Assumptions C12_sequences_stepwise.
 
